@@ -12,6 +12,15 @@ package executors
 // library is quiescent, i.e. every goroutine that is inside this package is blocked on a channel,
 // lock, wait group or one of the driver's gates (runtime.Stack snapshot - a logical condition, not
 // a delay). That realises the "run to quiescence" discipline of PEImpl.tla's steering mode.
+//
+// This file uses the public API of the package only (constructors, Add/Flush/Wait, the execute
+// callback, a user-written TaskContainer) plus the harness hooks (virtual clock, gate point).
+// The three white-box handles (harness ticker, container wrapper of Bulk/Chunk, the executor inside
+// Bulk/Chunk) live in zz_verif_c11_wb_test.go and degrade one by one; zz_verif_c11_nowb_test.go
+// (tag verifnowb, VERIF_NOWB=1) has none of them:
+//   harness ticker missing  -> a real ticker: replay uses an interval far longer than a schedule
+//                              (tick steps do nothing), stress a short one (real ticks, real idle quits);
+//   container wrapper missing -> no `take` events for that kind (auxiliary events only).
 
 import (
 	"bytes"
@@ -32,9 +41,25 @@ import (
 )
 
 const (
-	peInterval = time.Second
+	peInterval = time.Second // with the harness ticker: only the unit of the idle threshold
 	peHookName = "pe.add.sent"
+	// without the harness ticker (real timex.NewTicker):
+	peRealReplay = 3 * time.Second        // far longer than a schedule takes: normally no tick interferes
+	peRealStress = 500 * time.Microsecond // free-running: real ticks all the time
+	// clock advance in intervals: "longer than any idle threshold" (the statement leaves the number of
+	// idle rounds free; 10 in this tree)
+	peIdleJump = 256
 )
+
+// virtual clock (ns), shared by all driver objects and only ever advanced: a flusher goroutine that
+// outlives its run (real ticker) sees time pass and quits
+var peNow int64
+
+// does the white-box ticker injection work for this kind? 0 unknown, 1 yes, 2 no
+var peTickerCap = map[string]int{}
+
+// what the driver objects of a kind had: {harness ticker, take events}
+var peCaps = map[string][2]bool{}
 
 // ---------------------------------------------------------------- ticker / clock
 
@@ -131,11 +156,13 @@ type peDriver struct {
 	add   func(t int)
 	flush func()
 	wait  func()
-	pe    *PeriodicalExecutor
 
-	now int64 // virtual clock, ns
+	interval time.Duration // what the executor was constructed with
+	fake     bool          // harness ticker injected (white box)
+	takes    bool          // container wrapped: `take` events are recorded
 
 	mu         sync.Mutex
+	adding     map[int64]int // goroutine id -> task of the Add it is performing (hook gate only)
 	tickers    []*peTicker
 	gates      map[int]*peGate
 	hooks      map[int]chan struct{} // task -> hook gate of the Add of that task
@@ -152,9 +179,9 @@ type peDriver struct {
 	hookSeen   int32
 }
 
-func newPEDriver(t *testing.T, em *verifEmitter, kind string, thr int) *peDriver {
+func newPEDriver(t *testing.T, em *verifEmitter, kind string, thr int, stress bool) *peDriver {
 	d := &peDriver{t: t, em: em, kind: kind, thr: thr, gates: map[int]*peGate{}, hooks: map[int]chan struct{}{},
-		pending: map[string]int{}, workers: map[int]chan peOp{}}
+		pending: map[string]int{}, workers: map[int]chan peOp{}, adding: map[int64]int{}}
 	d.sizeOf = func(int) int { return 10 }
 	newTicker := func(time.Duration) timex.Ticker {
 		tk := &peTicker{c: make(chan time.Time, 1)}
@@ -164,33 +191,67 @@ func newPEDriver(t *testing.T, em *verifEmitter, kind string, thr int) *peDriver
 		return tk
 	}
 	execAny := func(tasks []any) { d.exec(peInts(tasks)) }
-	switch kind {
-	case "pe":
-		c := &peCont{thr: thr, exec: d.exec, weight: func(t int) int { return d.sizeOf(t) }}
-		pe := NewPeriodicalExecutor(peInterval, &peWrap{inner: c, d: d})
-		d.pe = pe
-		d.add = func(t int) { pe.Add(t) }
-		d.flush = func() { pe.Flush() }
-		d.wait = pe.Wait
-	case "bulk":
-		be := NewBulkExecutor(execAny, WithBulkTasks(thr), WithBulkInterval(peInterval))
-		d.pe = be.executor
-		d.pe.container = &peWrap{inner: be.container, d: d}
-		d.add = func(t int) { be.Add(t) }
-		d.flush = be.Flush
-		d.wait = be.Wait
-	case "chunk":
-		ce := NewChunkExecutor(execAny, WithChunkBytes(thr*10), WithFlushInterval(peInterval))
-		d.pe = ce.executor
-		d.pe.container = &peWrap{inner: ce.container, d: d}
-		d.add = func(t int) { ce.Add(t, d.sizeOf(t)) }
-		d.flush = ce.Flush
-		d.wait = ce.Wait
-	default:
+	// public API only: construct the executor with the given flush interval
+	build := func(iv time.Duration) any {
+		d.interval = iv
+		switch kind {
+		case "pe":
+			c := &peCont{thr: thr, exec: d.exec, weight: func(t int) int { return d.sizeOf(t) }}
+			pe := NewPeriodicalExecutor(iv, &peWrap{inner: c, d: d})
+			d.add = func(t int) { pe.Add(t) }
+			d.flush = func() { pe.Flush() }
+			d.wait = pe.Wait
+			return pe
+		case "bulk":
+			be := NewBulkExecutor(execAny, WithBulkTasks(thr), WithBulkInterval(iv))
+			d.add = func(t int) { be.Add(t) }
+			d.flush = be.Flush
+			d.wait = be.Wait
+			return be
+		case "chunk":
+			ce := NewChunkExecutor(execAny, WithChunkBytes(thr*10), WithFlushInterval(iv))
+			d.add = func(t int) { ce.Add(t, d.sizeOf(t)) }
+			d.flush = ce.Flush
+			d.wait = ce.Wait
+			return ce
+		}
 		t.Fatalf("unknown kind %q", kind)
+		return nil
 	}
-	d.pe.newTicker = newTicker
+	real := peRealReplay
+	if stress {
+		real = peRealStress
+	}
+	// white box, optional: harness ticker (else a real one), container wrapper of Bulk/Chunk
+	var pe *PeriodicalExecutor
+	ok := false
+	if peTickerCap[kind] != 2 {
+		pe, ok = peInner(build(peInterval))
+		d.fake = ok && peSetTicker(pe, newTicker)
+		if d.fake {
+			peTickerCap[kind] = 1
+		} else {
+			peTickerCap[kind] = 2
+		}
+	}
+	if !d.fake {
+		pe, ok = peInner(build(real))
+	}
+	d.takes = kind == "pe"
+	if ok && kind != "pe" {
+		d.takes = peWrapContainer(pe, func(c TaskContainer) TaskContainer { return &peWrap{inner: c, d: d} })
+	}
+	peCaps[kind] = [2]bool{d.fake, d.takes}
 	return d
+}
+
+// peGoid: id of the calling goroutine (first line of its stack: "goroutine N [running]:")
+func peGoid() int64 {
+	var buf [64]byte
+	n := runtime.Stack(buf[:], false)
+	var id int64
+	fmt.Sscanf(string(buf[:n]), "goroutine %d ", &id)
+	return id
 }
 
 // exec is the execute callback: logs the batch, blocks at the driver's gate, logs the end.
@@ -257,14 +318,14 @@ func (d *peDriver) atHook(point string, args ...any) {
 		return
 	}
 	atomic.StoreInt32(&d.hookSeen, 1)
+	id := peGoid()
 	d.mu.Lock()
-	if !d.hookOn || len(args) == 0 {
+	// the gate point is reached on the goroutine that called Add: which Add it is follows from the
+	// goroutine, not from the argument (whose type is the library's business)
+	t, mine := d.adding[id]
+	if !d.hookOn || !mine {
 		d.mu.Unlock()
 		return
-	}
-	t, _ := args[0].(int)
-	if c, ok := args[0].(chunk); ok {
-		t, _ = c.val.(int)
 	}
 	h := make(chan struct{})
 	d.hooks[t] = h
@@ -301,7 +362,14 @@ func (d *peDriver) tick() bool {
 	}
 }
 
-func (d *peDriver) advance() { atomic.AddInt64(&d.now, int64((idleRound+1)*peInterval)) }
+func (d *peDriver) advance() { atomic.AddInt64(&peNow, peIdleJump*int64(d.interval)) }
+
+// lastTickerStopped: the flusher goroutine that took the latest harness ticker has quit (or none ever started)
+func (d *peDriver) lastTickerStopped() bool {
+	d.mu.Lock()
+	defer d.mu.Unlock()
+	return len(d.tickers) == 0 || atomic.LoadInt32(&d.tickers[len(d.tickers)-1].stopped) == 1
+}
 
 // call performs one API call on behalf of producer p and logs its interval.
 func (d *peDriver) call(p int, o peOp) {
@@ -329,6 +397,20 @@ func (d *peDriver) call(p int, o peOp) {
 		}()
 		switch o.op {
 		case "add":
+			d.mu.Lock()
+			hk := d.hookOn
+			d.mu.Unlock()
+			if hk {
+				id := peGoid()
+				d.mu.Lock()
+				d.adding[id] = o.t
+				d.mu.Unlock()
+				defer func() {
+					d.mu.Lock()
+					delete(d.adding, id)
+					d.mu.Unlock()
+				}()
+			}
 			d.add(o.t)
 		case "flush":
 			d.flush()
@@ -410,12 +492,11 @@ func (d *peDriver) finish(watchdog time.Duration) {
 		return // goroutines of this object are stuck; leave them
 	}
 	// idle the flusher out so that goroutines do not pile up (not observed, not judged)
-	for i := 0; i < 6; i++ {
-		var g bool
-		d.pe.Sync(func() { g = d.pe.guarded })
-		if !g {
-			break
-		}
+	if !d.fake {
+		d.advance() // real ticker: its next tick finds the executor idle for long
+		return
+	}
+	for i := 0; i < 6 && !d.lastTickerStopped(); i++ {
 		d.advance()
 		d.tick()
 		peSettle(2 * time.Second)
@@ -457,16 +538,24 @@ func peQuiescent() bool {
 		if peBlocked[state] {
 			continue
 		}
-		// a repaired Wait() may poll pe.inflight between its Flush and the wait group: a goroutine whose
-		// innermost frame of this package is Wait itself is treated as blocked (it waits for others)
-		inner := ""
-		for _, ln := range strings.Split(s, "\n")[1:] {
+		// the library may poll (Wait sleeps between looks at the batches in flight): a goroutine that sleeps
+		// in library code (innermost frame of this package is not the driver's), or whose innermost frame of
+		// this package is Wait itself, is treated as blocked (it waits for others)
+		inner, file := "", ""
+		lines := strings.Split(s, "\n")
+		for i, ln := range lines[1:] {
 			if strings.Contains(ln, "core/executors.") && !strings.HasPrefix(ln, "\t") {
 				inner = ln
+				if i+2 < len(lines) {
+					file = lines[i+2]
+				}
 				break
 			}
 		}
 		if strings.Contains(inner, "(*PeriodicalExecutor).Wait(") {
+			continue
+		}
+		if state == "sleep" && inner != "" && !strings.Contains(file, "zz_verif_") {
 			continue
 		}
 		return false
@@ -513,12 +602,12 @@ func peSetup(t *testing.T) func() {
 }
 
 func (d *peDriver) install() {
-	timex.VerifNow = func() time.Duration { return time.Duration(atomic.LoadInt64(&d.now)) }
+	timex.VerifNow = func() time.Duration { return time.Duration(atomic.LoadInt64(&peNow)) }
 	verifhook.Set(d.atHook)
 }
 
 func peRunSchedule(t *testing.T, em *verifEmitter, kind string, thr int, steps []peStep, hook bool) {
-	d := newPEDriver(t, em, kind, thr)
+	d := newPEDriver(t, em, kind, thr, false)
 	d.hookOn = hook
 	d.install()
 	em.Emit(verifEv{"e": "reset", "kind": kind, "thr": thr, "mode": "replay"})
@@ -606,8 +695,24 @@ func TestVerifPEReplay(t *testing.T) {
 		}
 		peRunSchedule(t, em, in.Kind, in.Thr, in.Steps, in.Hook)
 	}
+	peInfo(em, hookOK, skipped)
+}
+
+// peInfo: a trace of its own that tells the runner what this tree / build offered (no verdict depends on it)
+func peInfo(em *verifEmitter, hookOK bool, skipped int) {
+	noTicker, noTakes := []string{}, []string{}
+	for _, k := range []string{"pe", "bulk", "chunk"} {
+		if c, ok := peCaps[k]; ok {
+			if !c[0] {
+				noTicker = append(noTicker, k)
+			}
+			if !c[1] {
+				noTakes = append(noTakes, k)
+			}
+		}
+	}
 	em.Emit(verifEv{"e": "reset", "kind": "none", "thr": 0, "mode": "info"})
-	em.Emit(verifEv{"e": "info", "hook": hookOK, "skipped": skipped})
+	em.Emit(verifEv{"e": "info", "hook": hookOK, "skipped": skipped, "wb": peWB, "noticker": noTicker, "notakes": noTakes})
 	em.Emit(verifEv{"e": "end", "pending": []string{}})
 }
 
@@ -634,7 +739,7 @@ func TestVerifPEStress(t *testing.T) {
 		if storm {
 			np, per, addW, flushW = 8, 30+rnd.Intn(20), 5, 8
 		}
-		d := newPEDriver(t, em, kind, thr)
+		d := newPEDriver(t, em, kind, thr, true)
 		d.auto = true
 		if r%5 < 2 {
 			d.panicEvery = 3 + rnd.Intn(5)
@@ -729,4 +834,5 @@ func TestVerifPEStress(t *testing.T) {
 		env.Wait()
 		d.finish(peWatchdog())
 	}
+	peInfo(em, false, 0)
 }
